@@ -1,3 +1,4 @@
+import MLPE.Proofs.Safe
 import MLPE.Proofs.EngTasks
 import MLPE.Proofs.PlainSol
 
@@ -126,5 +127,42 @@ theorem C05_plain_failure_is_never_masked (P : Program) (d : DagRef) (val : Node
   have a : val P.g.output = some v := hok hsol
   have := val_none_propagates hsol ht hfo hp.outIn _ n hn (Nat.le_refl _) (hfail.val_none hsol hn)
   rw [a] at this; cases this
+
+/-! ### Pipelines with switches: the error of a failed run has a cause (under every schedule) -/
+
+/-- **C05 (switch pipelines)**: when a run ends with an error, the error is the final failure of a node on its dataflow
+arguments, a collaborator's exception, the no-case error of a switch whose decision names no declared case, or a setup
+error; it is never an exception of an attempt that was retried, nor a made-up one -/
+theorem C05_switch_error_has_cause (P : Program) (val : Node → Option Val) (hsw : SwP P) (hsol : SolutionSw P val)
+    (s : St) (h : Reach P s) (e : Exc) (ho : s.outcome = some (.error e) ∨ s.outcome = some (.raised e)) :
+    ErrCause P val e := by
+  rcases ho with ho | ho
+  · exact (safe_reach hsw hsol h).data.out _ ho
+  · exact (safe_reach hsw hsol h).data.out _ ho
+
+/-- with sound collaborators and setup, the node (or switch) named by the error has no value in the dataflow semantics -/
+theorem C05_switch_error_is_a_real_failure (P : Program) (val : Node → Option Val) (hsw : SwP P)
+    (hsol : SolutionSw P val) (s : St) (h : Reach P s) (e : Exc)
+    (ho : s.outcome = some (.error e) ∨ s.outcome = some (.raised e))
+    (hcb : ∀ cb n, P.cbRaise cb n = none) (hpools : P.poolsOk = true) (hlk : e ≠ ⟨"Other:NodeNotFound", 0, 0, 0⟩) :
+    (∃ n, P.g.isSwitch n = false ∧ NodeFails P val n e ∧ val n = none) ∨
+    (∃ S, P.g.isSwitch S = true ∧ e = ⟨"SwitchNoCase", S, 0, 0⟩ ∧ swSel P val S = none ∧ val S = none) := by
+  rcases C05_switch_error_has_cause P val hsw hsol s h e ho with ⟨n, h1, h2⟩ | ⟨cb, m, hc⟩ | ⟨S, h1, h2, _, h4⟩ | h5 | ⟨h6, _⟩
+  · refine Or.inl ⟨n, h1, h2, ?_⟩
+    rw [hsol.plain n h1, h2.1]
+    simp only [if_true, valueOf, h2.2]
+  · rw [hcb] at hc; cases hc
+  · refine Or.inr ⟨S, h1, h2, h4, ?_⟩
+    rw [hsol.sw S h1, h4]; rfl
+  · exact absurd h5 hlk
+  · rw [hpools] at h6; cases h6
+
+/-- a value is never returned in place of a failure: if the output has no value, no value is returned -/
+theorem C05_switch_failure_is_never_masked (P : Program) (val : Node → Option Val) (hsw : SwP P)
+    (hsol : SolutionSw P val) (s : St) (h : Reach P s) (hnone : val P.g.output = none) (v : Val) :
+    s.outcome ≠ some (.value v) := by
+  intro ho
+  have : val P.g.output = some v := (safe_reach hsw hsol h).data.out (.value v) ho
+  rw [hnone] at this; cases this
 
 end MLPE.Eng
